@@ -308,6 +308,7 @@ Proof.
   destruct (cache_get (native_cache st) name); [apply ngood_refl; exact HI|].
   pose proof (load_native_ngood nr st name Hwf HI) as G. destruct (load_native nr st name) as [st1 r]. cbn [fst] in G.
   destruct r as [m| | | |]; try exact G.
+  destruct (mem_zs (registered_name st1 m) (n_loader_throws nr)); [exact G|].
   remember (run_lazies rq st1 loader_file (assoc_reqs (n_loader_reqs nr) (registered_name st1 m))) as rl eqn:ERL.
   assert (G3 : ngood nr st1 (fst rl)) by (rewrite ERL; apply run_lazies_ngood; exact (proj1 G)).
   destruct rl as [st2 oof]. cbn [fst] in *. exact (ngood_trans _ _ _ _ G G3).
